@@ -175,7 +175,7 @@ def race_pass(scenarios, tier, prop="race"):
     return viols, {"race_pass_executions": execs, "race_reports_total": reports, "race_reports_on_model_or_harness_data_dropped": dropped, "race_reports_in_library_code": len(viols), "executions_left_out_because_a_thread_was_terminated": terminated_execs}
 
 
-def scenario_args(sc, nshards, deadline_s):
+def scenario_args(sc, nshards, deadline_s, deadline_at=0):
     """sc: dict(scenario=..., p=, m=, backlog=, racer=, cycles=, glib=, bound=)"""
     base = []
     for k, v in sc.items():
@@ -183,15 +183,21 @@ def scenario_args(sc, nshards, deadline_s):
             base += ["--" + k, v]
     if deadline_s:
         base += ["--deadline-s", int(deadline_s)]
+    if deadline_at:
+        base += ["--deadline-at", int(deadline_at)]
     return [base + ["--shard", i, "--nshards", nshards] for i in range(nshards)]
 
 
 def run_scenarios(exe, scenarios, deadline_s=0, shards_per=None):
     """all shards of all scenarios in one pool; returns (per-scenario merged totals, failures)"""
     args, owner = [], []
+    import time
+    # ONE deadline for all shards of all scenarios (they share a pool of NCPU workers and run one after another): the check as a whole
+    # ends in bounded time; what was cut is reported per scenario (exhaustive:false)
+    at = time.time() + deadline_s if deadline_s else 0
     for si, sc in enumerate(scenarios):
         n = sc.get("_shards") or shards_per or (vlib.NCPU if sc.get("bound", 2) >= 2 else 1)
-        for a in scenario_args(sc, n, deadline_s):
+        for a in scenario_args(sc, n, deadline_s, at):
             args.append(a); owner.append(si)
     parts = seqxrun.run_shards(exe, args, max(600, (deadline_s or 0) + 300))
     fails = [p for p in parts if "_crash" in p or "_timeout" in p]
